@@ -241,6 +241,16 @@ PROBES.update({
 })
 
 
+PROBES.update({
+    "C39": [
+        ("%[1..5] -> foreach i { if { $i == 3 } then { break foreach } ; out $i }\nout end", expect("1\n2\nend\n")),
+        ("%[1..4] -> foreach i { if { $i == 2 } then { continue foreach } ; out $i }\nout end", expect("1\n3\n4\nend\n")),
+        ("function verif.r { out a ; return 3 ; out b }\nverif.r\nexitnum", expect("a\n3\n")),
+        ("%[1..2] -> foreach o { %[1..3] -> foreach i { if { $i == 2 } then { break foreach } ; out \"$(o)$(i)\" } }\nout end", expect("11\n21\nend\n")),
+    ],
+})
+
+
 def t_probes(rep, ints):
     pid = rep.get("property", "")
     if pid not in PROBES:
